@@ -468,6 +468,9 @@ fn gen_plan(rng: &mut Rng, mode: usize, builtins: bool) -> Vec<Proto> {
         for _ in 0..rng.range(1, 2) { plan.push(proto(Tag::Ext, 1, *rng.pick(&["Int", "String", "ID"]))); }
     }
     for i in 0..rng.below(3) { plan.push(proto(Tag::Dir, 0, &format!("dd{}", i))); }
+    // directive definitions are not keyed by the resolver: same-name ones (also user + builtin) must all pass through
+    if rng.chance(1, 4) { for _ in 0..rng.range(1, 2) { plan.push(proto(Tag::Dir, 0, "dd0")); } }
+    if builtins && rng.chance(1, 5) { plan.push(proto(Tag::Dir, 0, *rng.pick(&["skip", "deprecated", "nitrogql_ts_type", "specifiedBy"]))); }
     if mode == 1 || mode == 3 {
         for _ in 0..rng.range(1, 2) {
             if builtins && rng.chance(1, 4) { plan.push(proto(Tag::Def, 1, *rng.pick(&["Int", "Boolean"]))); }
@@ -611,7 +614,7 @@ fn json_item(it: &AItem) -> serde_json::Value {
 struct Stats {
     n: u64, ok: u64, dup: u64, orphan: u64, panic: u64, parse_fail: u64, parse_mismatch: u64,
     by_kind_def: [u64; 7], by_kind_ext: [u64; 7], dirdefs: u64, files: [u64; 5], ext_before_def: u64, cross_file_ext: u64,
-    multi_ext: u64, with_builtins: u64, pos_ties: u64, builtin_ties: u64, items_total: u64, err_elem: HashMap<String, u64>,
+    multi_ext: u64, same_name_dirdefs: u64, with_builtins: u64, pos_ties: u64, builtin_ties: u64, items_total: u64, err_elem: HashMap<String, u64>,
 }
 
 fn main() {
@@ -622,7 +625,7 @@ fn main() {
     let mut cases = Cases::new("From V Require Import Base.Util C11.Model C11.Spec C11.Corr.", "case", "agree", "holds", if thorough { 800 } else { 300 });
     let mut distinct: HashSet<String> = HashSet::new();
     let mut st = Stats { n: 0, ok: 0, dup: 0, orphan: 0, panic: 0, parse_fail: 0, parse_mismatch: 0, by_kind_def: [0; 7], by_kind_ext: [0; 7],
-        dirdefs: 0, files: [0; 5], ext_before_def: 0, cross_file_ext: 0, multi_ext: 0, with_builtins: 0, pos_ties: 0, builtin_ties: 0, items_total: 0, err_elem: HashMap::new() };
+        dirdefs: 0, files: [0; 5], ext_before_def: 0, cross_file_ext: 0, multi_ext: 0, same_name_dirdefs: 0, with_builtins: 0, pos_ties: 0, builtin_ties: 0, items_total: 0, err_elem: HashMap::new() };
     let mut direct_failures: Vec<serde_json::Value> = vec![];
     let slim = thorough;   // thorough tier: replay descriptions keep the file texts and the verdict only
 
@@ -717,6 +720,11 @@ fn main() {
         if ebd { st.ext_before_def += 1; }
         if cfe { st.cross_file_ext += 1; }
         if ext_count.values().any(|c| *c >= 2) { st.multi_ext += 1; }
+        {
+            let mut names: HashSet<String> = HashSet::new(); let mut dupd = false;
+            for it in flat.iter().chain(builtin_items.iter()) { if it.tag == Tag::Dir && !names.insert(it.name.clone().unwrap_or_default()) { dupd = true; } }
+            if dupd { st.same_name_dirdefs += 1; }
+        }
         let mut lc: HashSet<(usize, usize, usize)> = HashSet::new();
         let mut tie = false;
         for it in flat.iter() { if it.tag == Tag::Def && !lc.insert((it.kind, it.pos.line, it.pos.col)) { tie = true; } }
@@ -819,6 +827,7 @@ fn main() {
             "cases_with_extension_in_another_file_than_its_definition": st.cross_file_ext,
             "cases_with_two_or_more_extensions_of_one_definition": st.multi_ext,
             "cases_with_builtins_appended": st.with_builtins,
+            "cases_with_two_directive_definitions_of_one_name": st.same_name_dirdefs,
             "cases_with_two_rendered_same_kind_definitions_at_equal_line_col": st.pos_ties,
             "cases_with_rendered_scalar_at_0_0_tying_with_builtin_scalars": st.builtin_ties,
             "mean_items_per_case": (st.items_total as f64) / (st.n.max(1) as f64),
